@@ -77,7 +77,14 @@ for pid in R.ALL_IDS:
     if pid not in claimed:
         out.append(f'| {pid} | {props[pid]["title"]} | {R.NOT_APPLICABLE[pid]} |')
 out.append('')
-out.append(open(os.path.join(HERE, 'tools', 'design_notes.md')).read())
+import subprocess
+_log = subprocess.run(['git', '-C', '/repo', 'log', '--reverse', '--format=%h|%s', '--grep=^fix:'], capture_output=True, text=True).stdout.strip().splitlines()
+_fix = []
+for _l in _log:
+    _h, _subj = _l.split('|', 1)
+    _props = sorted({f['property'] for f in known['findings'] if f.get('commit') == _h})
+    _fix.append(f'* `{_h}` {_subj}  (findings: {", ".join(_props) if _props else "consequence of the previous commit"})')
+out.append(open(os.path.join(HERE, 'tools', 'design_notes.md')).read().replace('__FIXLIST__', '\n'.join(_fix)))
 out.append('## 8. Seeded changes and which rule catches which\n')
 out.append('Each change was written by a fresh sub-agent that was given only the text of one property and a scratch git worktree '
            'of /repo (nothing from /verif).  A change is kept under `/verif/seeded/<Cnn>-<v>/` (patch.diff, demo.py, notes.md, '
